@@ -187,6 +187,16 @@ def serDecimal (ext : Ext) (mode : DecimalMode) (d : Int × Nat) : SerM Unit := 
   writeAll (buf.drop start)
   if scaleToWrite ≠ [] then writeAll scaleToWrite
 
+/-- Number of leading zero bytes that can be dropped while the sign bit of the remainder stays
+    clear; at least one byte is kept. -/
+def stripZeros : Bytes → Nat
+  | b0 :: b1 :: rest =>
+    if b0 = 0 ∧ b1.toNat &&& 0x80 = 0 then 1 + stripZeros (b1 :: rest) else 0
+  | _ => 0
+
+/-- `std::str::from_utf8(v).is_ok()` -/
+def validUtf8 (b : Bytes) : Bool := (String.fromUTF8? (ByteArray.mk b.toArray)).isSome
+
 /-- Integers presented to a decimal node: the hand-rolled encoder inside `serialize_integer`. -/
 def serIntegerAsDecimal (scale : Nat) (repr : DecimalRepr) (v : Int) : SerM Unit :=
   if !inI128 v then SerM.fail .custom else
@@ -198,13 +208,21 @@ def serIntegerAsDecimal (scale : Nat) (repr : DecimalRepr) (v : Int) : SerM Unit
   let bytes := i128be n
   match repr with
   | .bytes => do
-    -- `while start < bytes.len() - 1 && bytes[start] == 0 { start += 1 }`
-    let start := ((bytes.take 15).takeWhile (· = 0)).length
+    -- `while start < len - 1 && bytes[start] == 0 && bytes[start + 1] & 0x80 == 0 { start += 1 }`
+    let start := stripZeros bytes
     let buf := bytes.drop start
     writeVarI64 buf.length
     writeAll buf
   | .fixed _ size =>
-    if size ≤ 16 then writeAll (bytes.drop (16 - size)) else SerM.fail .custom
+    if size ≤ 16 then
+      let start := 16 - size
+      let signByte : UInt8 := if n < 0 then 0xFF else 0x00
+      let fits := (bytes.take start).all (· = signByte) &&
+        (match bytes[start]? with
+          | none => decide (n = 0)
+          | some b => decide ((b.toNat &&& 0x80 ≠ 0) = (n < 0)))
+      if fits then writeAll (bytes.drop start) else SerM.fail .custom
+    else SerM.fail .custom
 
 /-! ### Leaf serializer calls -/
 
@@ -227,8 +245,8 @@ def serInteger (S : Schema) (node : Node) (t : IntTy) (v : Int) : SerM Unit :=
     | .long | .timestampMillis | .timestampMicros | .timeMicros =>
       if -9223372036854775808 ≤ v ∧ v ≤ 9223372036854775807 then writeVarI64 v else SerM.fail .custom
     | .decimal scale _ repr => serIntegerAsDecimal scale repr v
-    | .enum _ _ =>
-      if -9223372036854775808 ≤ v ∧ v ≤ 9223372036854775807 then writeVarI64 v else SerM.fail .custom
+    | .enum _ symbols =>
+      if 0 ≤ v ∧ v < symbols.length then writeVarI64 v else SerM.fail .custom
     | _ => SerM.fail .custom
 
 def serF32 (S : Schema) (node : Node) (bits : BitVec 32) : SerM Unit :=
@@ -282,7 +300,8 @@ def serStr (ext : Ext) (S : Schema) (node : Node) (s : String) : SerM Unit :=
 
 def serBytes (S : Schema) (node : Node) (b : Bytes) : SerM Unit :=
   viaUnion S node .sliceU8 fun
-    | .bytes | .string => writeLengthDelimited b
+    | .bytes => writeLengthDelimited b
+    | .string => if validUtf8 b then writeLengthDelimited b else SerM.fail .custom
     | .fixed _ size => if size ≠ b.length then SerM.fail .custom else writeAll b
     | .duration => if b.length ≠ 12 then SerM.fail .custom else writeAll b
     | _ => SerM.fail .custom
